@@ -342,6 +342,8 @@ class Ceremony:
                 self.add_holder(c)
         if ok and c.context_tampered:
             c.resigned = True
+        if ok and isinstance(c.t, self.BW.WalletTransaction):
+            c.lib_touched_after_edit = True
         w.outcome('signed', cid=c.cid, signers=sorted(c.signers), verified=bool(getattr(c.t, 'verified', False)))
         self.check_copy(c, 'sign')
 
@@ -368,6 +370,8 @@ class Ceremony:
                 self.add_holder(c)
                 if c.context_tampered:
                     c.resigned = True
+                if isinstance(c.t, self.BW.WalletTransaction):
+                    c.lib_touched_after_edit = True
             w.outcome('signed', cid=c.cid, signers=sorted(c.signers), verified=bool(getattr(c.t, 'verified', False)))
             self.check_copy(c, 'sign')
 
@@ -453,6 +457,17 @@ class Ceremony:
         pushed = bool(getattr(c.t, 'pushed', False))
         w.outcome('sent', cid=c.cid, pushed=pushed, accepted=len(new_acc), attempts=len(attempts),
                   error=str(getattr(c.t, 'error', ''))[:60])
+        if attempts and getattr(c, 'lib_touched_after_edit', True) and not c.context_tampered:
+            # (a copy whose outpoint / amount / key list was edited tells the library another context than the chain's)
+            # the library looked at this copy (import / sign) after the last edit in transit and still offered it to the
+            # network: it must carry m valid signatures per input then
+            vs, _rt = self.verdicts(c.t)
+            if vs is not None and all(v is not None for v in vs) and \
+                    not all(v.n_valid_sigs_distinct_keys >= max(self.m, 1) for v in vs):
+                w.violation('invalid_spend_offered_to_network', {'witness': self.wt, 'via': c.via[-1], 'tampered': c.tampered},
+                            'copy %d (%s, signers %s): send() handed it to a provider; reference: %s' %
+                            (c.cid, '>'.join(c.via), sorted(c.signers),
+                             [(v.n_valid_sigs_distinct_keys, v.reason) for v in vs]))
         if self.focus == 'C10':
             if len(c.signers) < self.m and not c.tampered:
                 if pushed or attempts:
@@ -495,6 +510,7 @@ class Ceremony:
             w.outcome('tamper_skipped')
             return
         c.tampered = True
+        c.lib_touched_after_edit = False
         if kind in ('outpoint_index', 'outpoint_txid', 'input_value', 'pubkey_swap'):
             # the edit changes what the input refers to; anyone signing afterwards signs for that other context
             c.context_tampered = True
@@ -799,6 +815,9 @@ class Ceremony:
     def check_copy(self, c, stage):
         w = self.w
         t = c.t
+        # what the library itself concluded in the call that has just returned (sign / import set `verified`; send()
+        # relies on it) - read before verify() recomputes it
+        cached = bool(getattr(t, 'verified', False)) if stage.split(':')[0] in ('sign', 'import', 'create') else None
         ok, ver = self.quiet(lambda: t.verify())
         if not ok:
             w.probe('verify_raised')
@@ -814,6 +833,11 @@ class Ceremony:
             return
         ref_all = all(v is not None and v.ok for v in vs)
         ref_enough = all(v is not None and v.n_valid_sigs_distinct_keys >= max(self.m, 1) for v in vs)
+        if cached and not ver and not ref_enough and all(v is not None for v in vs) and not c.context_tampered:
+            w.violation('verified_flag_true_without_enough_valid_signatures', dict(sig, flag='cached'),
+                        'copy %d (%s, signers %s, tampered=%s): after %s the transaction says verified=True; verify() %s, '
+                        'reference: %s' % (c.cid, '>'.join(c.via), sorted(c.signers), c.tampered, stage, ver,
+                                           [(v.n_valid_sigs_distinct_keys, v.reason) for v in vs]))
         w.state_sig(self.wt, self.m, self.n, n_signers if n_signers < 4 else 4, c.tampered, bool(ver), ref_all, c.via[-1])
         w.probe('copy_checked')
         # soundness: verify() True only if every input carries the required number of signatures, each valid for a
